@@ -92,25 +92,54 @@ def hist_record(k, evs):
     return {'k': k, 'ev': [{x: e[x] for x in e if x not in ('line', 'stderr', 'ub')} for e in evs]}
 
 
+def run_trace_spec(ctx, module, cfg, recs, label, chunk, timeout=1500):
+    """Private variant of scheck.validate_histories: the trace modules of this check also print how far every rejected
+    history got (<<"PROGRESS", {<<history, position>>}>>).  Returns {rejected history index: 0-based index of the first
+    event that no action of the specification explains}."""
+    import concurrent.futures
+    import re
+    chunks = [recs[i:i + chunk] for i in range(0, len(recs), chunk)]
+
+    def one(ci):
+        d = vlib.mkdirs(os.path.join(ctx.work, 'traces'))
+        path = os.path.join(d, '%s-%d.ndjson' % (label, ci))
+        with open(path, 'w') as f:
+            for r in chunks[ci]:
+                f.write(json.dumps(r, separators=(',', ':')) + '\n')
+        res = vlib.tlc(ctx, module, cfg, workers=1, env={'TRACE': path}, timeout=timeout, label='%s-%d' % (label, ci), kind='trace')
+        if res.clean:
+            return ci, {}
+        m = re.search(r'<<\s*"REJECTED",\s*\{(.*?)\}\s*>>', res.out, re.S)
+        pm = re.search(r'<<\s*"PROGRESS",\s*\{(.*?)\}\s*>>', res.out, re.S)
+        if not m or not pm:
+            raise vlib.MachineryError('trace validation failed to run (%s):\n%s' % (label, res.tail(40)))
+        prog = {int(a): int(b) for a, b in re.findall(r'<<\s*(\d+)\s*,\s*(\d+)\s*>>', pm.group(1))}
+        out = {}
+        for x in m.group(1).split(','):
+            if x.strip():
+                h = int(x)
+                out[h - 1] = max(0, prog.get(h, 1) - 1)
+        return ci, out
+
+    rejected = {}
+    with concurrent.futures.ThreadPoolExecutor(max_workers=min(8, max(1, len(chunks)))) as ex:
+        for ci, out in ex.map(one, range(len(chunks))):
+            for h, pos in out.items():
+                rejected[ci * chunk + h] = pos
+    return rejected
+
+
 def validate(ctx, recs, label, chunk):
     """I-layer first (it implies the P-layer); what it rejects is re-validated against the P-layer.
-    Returns (P-rejected indices, I-only rejected indices)."""
+    Returns ({P-rejected history: index of the unexplained event}, [I-only rejected histories])."""
     mod = os.path.join(SPEC, 'Trace_SBuf.tla')
-    irej = [i for i in scheck.validate_histories(ctx, mod, os.path.join(SPEC, 'Trace_SBuf_I.cfg'), recs, label + '-I', chunk=chunk) if isinstance(i, int)]
+    irej = sorted(run_trace_spec(ctx, mod, os.path.join(SPEC, 'Trace_SBuf_I.cfg'), recs, label + '-I', chunk))
     if not irej:
-        return [], []
+        return {}, []
     sub = [recs[i] for i in irej]
-    prej = [irej[i] for i in scheck.validate_histories(ctx, mod, os.path.join(SPEC, 'Trace_SBuf.cfg'), sub, label + '-P', chunk=chunk) if isinstance(i, int)]
+    pr = run_trace_spec(ctx, mod, os.path.join(SPEC, 'Trace_SBuf.cfg'), sub, label + '-P', chunk)
+    prej = {irej[i]: pos for i, pos in pr.items()}
     return prej, [i for i in irej if i not in prej]
-
-
-def first_bad_step(ctx, rec, label):
-    """the shortest prefix of a rejected history that the P-layer rejects (all prefixes validated in one TLC run)"""
-    n = len(rec['ev'])
-    prefixes = [{'k': rec['k'], 'ev': rec['ev'][:m]} for m in range(1, n + 1)]
-    rej = scheck.validate_histories(ctx, os.path.join(SPEC, 'Trace_SBuf.tla'), os.path.join(SPEC, 'Trace_SBuf.cfg'), prefixes, label, chunk=max(10, n))
-    rej = sorted(i for i in rej if isinstance(i, int))
-    return rej[0] if rej else n - 1
 
 
 def classify(ev):
@@ -121,16 +150,16 @@ def classify(ev):
                 'huge_count': len(toks) > 4 and toks[4].isdigit() and int(toks[4]) >= (1 << 30)}
     o = ev['o']
     return {'kind': 'mismatch', 'op': o['a'], 'family': 'slice' if o['a'] in SLICE else o['a'], 'huge_count': o['n'] < -1,
-            'raised': not ev['res']['ok']}
+            'raised': not ev['res']['ok'], 'length_beyond_maxSize': any(c['p'].get('corrupt', False) for c in ev['ch'] if isinstance(c['p'], dict))}
 
 
 def report(ctx, recs_events, prej, irej, label):
-    for hi in prej:
+    ctx.add('p_rejected_histories', len(prej))
+    for hi in sorted(prej):
         if len(ctx.violations) >= 5:
             break
         evs = recs_events[hi][1]
-        rec = hist_record(recs_events[hi][0], evs)
-        k = first_bad_step(ctx, rec, label + '-pin')
+        k = min(prej[hi], len(evs) - 1)
         ev = evs[k]
         cls = classify(ev)
         what = ('real SBufs diverge from independent values at step %d of a %d-step history: %s' % (k + 1, len(evs), ev.get('line')))
@@ -301,19 +330,18 @@ def run_limits(ctx, exe):
     events, deaths = run_histories(ctx, exe, hists, timeout=1200)
     recs = [hist_record(3, evs) for evs in events]
     mod = os.path.join(SPEC, 'Trace_SBufLimits.tla')
-    rej = scheck.validate_histories(ctx, mod, os.path.join(SPEC, 'Trace_SBufLimits.cfg'), recs, 'limits', chunk=10)
-    for hi in rej:
-        if not isinstance(hi, int) or len(ctx.violations) >= 5:
-            continue
+    rej = run_trace_spec(ctx, mod, os.path.join(SPEC, 'Trace_SBufLimits.cfg'), recs, 'limits', 10)
+    for hi in sorted(rej):
+        if len(ctx.violations) >= 5:
+            break
         evs = events[hi]
-        prefixes = [{'k': 3, 'ev': recs[hi]['ev'][:m]} for m in range(1, len(evs) + 1)]
-        bad = sorted(i for i in scheck.validate_histories(ctx, mod, os.path.join(SPEC, 'Trace_SBufLimits.cfg'), prefixes, 'limits-pin', chunk=50) if isinstance(i, int))
-        k = bad[0] if bad else len(evs) - 1
+        k = min(rej[hi], len(evs) - 1)
         ev = evs[k]
         cls = classify(ev)
         cls['limit'] = True
         ctx.violation('size-limit scenario %d diverges at step %d: %s -> %s' % (hi, k + 1, ev.get('line'), json.dumps({x: ev[x] for x in ev if x in ('res', 'ch')})[:400]),
                       {'class': cls, 'lines': [e.get('line') for e in evs[:k + 1]]})
+    ctx.add('impl_traces_limits', len(recs))
     ctx.add('limit_steps', sum(len(e) for e in events))
     ctx.add('limit_raises', sum(1 for evs in events for e in evs if 'res' in e and not e['res']['ok']))
     return events
@@ -349,7 +377,7 @@ def run(ctx):
 
     # ---- T2
     rnd = random.Random(ctx.seed * 7919 + 13)
-    nh, nops = (260, 200) if ctx.thorough else (44, 150)
+    nh, nops = (260, 200) if ctx.thorough else (40, 140)
     walks = []
     for x in range(nh):
         k = rnd.choice([1, 2, 2, 3, 3, 4, 5, 6])
